@@ -84,7 +84,10 @@ pub fn run(tier: Tier) -> i32 {
     let mut rep = Report::new("C03", tier, "model_checking");
     let files = cursor_files(tier);
     let deadline = Deadline::after(Duration::from_secs(tier.pick(50, 3000)));
-    let opt = BfsOptions { check_results: true, check_loads: false, max_states: tier.pick(400_000, 4_000_000), full_probes: true };
+    // `with_faults` (states left behind by a call whose I/O failed once) is implemented in
+    // cursor_bfs but NOT part of this check: C03 quantifies over operation histories, not over fault
+    // sequences, and no property says what a cursor does after a call returned Err (DESIGN 7).
+    let opt = BfsOptions { check_results: true, check_loads: false, max_states: tier.pick(400_000, 4_000_000), full_probes: true, with_faults: false };
     let names: Vec<String> = files.iter().map(|f| f.0.clone()).collect();
     let acc = par_for(files.len(), 1, &deadline, |i, acc| {
         let (name, spec) = &files[i];
